@@ -408,7 +408,8 @@ PROPS = {
                       "year and every position of the molad in the week, the next new year comes exactly the keviyah's year length "
                       "later - by the calendar's rules, i.e. with the week count moving on exactly when the keviyah postpones), "
                       "C16_hebrew_daycount_inverse / _rules_bounds / _rules_consecutive (every day, no range restriction), "
-                      "C16_hebrew_month_codes (M05L / M06 in leap years), C16_hebrew_coded_is_calendar (the code as written equals "
+                      "C16_hebrew_month_codes (M05L / M06 in leap years; the closed form `days_preceding` of date_to_iso equals the sum "
+                      "of the month lengths: Lemmas daysPreceding_eq), C16_hebrew_coded_is_calendar (the code as written equals "
                       "the rules wherever no molad falls exactly on Saturday 18 h 0 p in the estimated year or its neighbours, and "
                       "is a week early exactly there), C16_hebrew_fields_bounds_partial / _consecutive_days_partial / "
                       "_rebuild_partial / _from_partial_partial / _no_assertion_partial (the C16 clauses and the absence of the "
